@@ -55,7 +55,20 @@ def run_case(case, with_bad=True):
     for how in case.get('prior') or []:
         live = ss.live_connectors(sim)
         if live:
-            if how == 'close':
+            if how == 'fewcaps-marker':
+                # this earlier session is with a peer OPEN that carries one capability only (route refresh), and the agent ends it
+                r.peer_close(live[-1])
+                r.settle(fire_due=True)
+                guard = 0
+                while not r.attempts() and r.next_time() is not None and guard < 50:
+                    r.advance_to(r.next_time())
+                    r.settle(fire_due=True)
+                    guard += 1
+                if r.attempts():
+                    cx = ss.establish(sim, caps=[rc.cap(2)], as4=False, upto='ESTABLISHED', hold=hold)
+                    if cx is not None:
+                        r.peer_send(cx, b'\x00' * 19)
+            elif how == 'close':
                 r.peer_close(live[-1])
             elif how == 'marker':
                 r.peer_send(live[-1], b'\x00' * 19)
@@ -113,6 +126,12 @@ def run_case(case, with_bad=True):
             out.append(('escaped:%s@%s' % (e[2], e[3]), 'exception escaped %s: %s' % (e[1], e[4])))
         rep = reports(sim, n0)
         per_msg.append((kind, delivered, rep))
+        if kind == 'g' and delivered and st0 == 'ESTABLISHED' and data[18] == rc.UPDATE:
+            # a well-formed UPDATE in the session's AS mode is decoded as what it is, whatever came before
+            want = [rc.prefix_text(pl, o) for _, pl, o in rc.split_prefixes(rc.split_update(data[19:])[2])]
+            if [n for n, _ in rep] != ['update_received'] or list(rep[0][1].get('nlri') or []) != want:
+                out.append(('good-update-misreported:%s' % ('+'.join(n for n, _ in rep) or 'nothing'),
+                            'well-formed UPDATE announcing %r reported as %r' % (want, rep)))
         if len(rep) > 1:
             out.append(('multiple-reports:%s' % '+'.join(n for n, _ in rep), '%d reports for one message: %r' % (len(rep), [n for n, _ in rep])))
         if kind == 'b' and delivered:
@@ -262,7 +281,7 @@ case_strategy = st.builds(
                                                               kind=bad['kind'], as4=as4, prior=prior, hold=hold, rib=rib),
     st.sampled_from(['ESTABLISHED', 'ESTABLISHED', 'ESTABLISHED', 'OPENCONFIRM', 'OPENSENT']),
     st.integers(0, 2), st.integers(1, 3), bad_message(), st.booleans(),
-    st.one_of(st.just([]), st.just([]), st.lists(st.sampled_from(['close', 'marker', 'cease', 'silence']), min_size=1, max_size=2)),
+    st.one_of(st.just([]), st.just([]), st.lists(st.sampled_from(['close', 'marker', 'cease', 'silence', 'fewcaps-marker']), min_size=1, max_size=2)),
     st.sampled_from([180, 180, 0, 0, 3, 90]), st.booleans())
 
 
